@@ -253,6 +253,10 @@ func c01(c *Ctx) (*report.Result, error) {
 				res.Undec("O1.14", "keep-alive obligations of O3.4", "", fmt.Sprintf("%d imported, at least 2 expected", n))
 			}
 		}
+		res.RuleDoc["O1.16"] = "the confirmation that is translated is the target's overall one (same analysis as O4.17): recvAck hands the id table the received SyncReplicationState's own InclusiveLowWatermark"
+		checkAckWatermarkSource(c, res, "O1.16")
+		res.RuleDoc["O1.15"] = "what is re-acknowledged for an idle source shard is only what the id table said the target confirmed: prevAckBySource is written only by recvAck, under the sender's mutex, with the (source shard, level) pair of AggregateUpTo's result, and Run creates it empty - recvAck's fallback branch acknowledges every remembered level again, without any further test, whenever an ack covers no new entry"
+		checkPrevAckWriters(c, res, "O1.15")
 		res.RuleDoc["O1.12"] = "a confirmation is filed under the target it came from (same analysis as O3.14): an ack forwarded under another target's shard overwrites that target's lower level in ackByTarget and the minimum rises above what it confirmed"
 		checkRoutedAckTarget(c, res, "O1.12")
 		res.RuleDoc["O1.11"] = "each target stream's sender owns the message it is handed (same analysis as O2.5 / O4.12): a body shared between the targets of a fan-out lets one target's sender inherit another's rewritten watermark, advertise it in keep-alives, and have the target confirm ids it was never sent - which the ring translates into source ids that were not confirmed"
